@@ -18,6 +18,7 @@ RULE = (
     "batch size 1-6; dims 1-3; pass budget 0-6; a scripted stream of rows mixing fresh rows, repeats of history, in-batch "
     "repeats and repeats of earlier redraws). Non-trivial = at least 2 redraw passes actually performed or budget "
     "exhausted with a surviving repeat; distinct by script hash."
+    ' The scripted generator returns C-ordered, Fortran-ordered or strided arrays; the pass budget is given at construction or assigned afterwards; now and then the history has 10 500-13 000 rows whose oldest rows are the repeated ones; rows on 1e9 + k (equal in float32, distinct in float64).'
 )
 ASSUMPTIONS = [
     "which redraw lands on which repeat position is not fixed by the statement: the model compares multisets and the untouched positions",
